@@ -310,6 +310,9 @@ func (w *Writer) Close() error {
 			// in buf.Bytes() returning the whole allocated bytes.
 			w.dataBlock.buf.Reset()
 			w.bpool.Put(w.dataBlock.buf.Bytes())
+			// Close may be called again (it then returns the recorded
+			// error); the buffer must be handed back only once.
+			w.bpool = nil
 		}
 	}()
 
